@@ -42,7 +42,9 @@ PROPS = {
         "level_text": "rounding direction, distance < 1 tick, grid membership and on-grid-unchanged are postconditions of Market._add_order, discharged in real arithmetic for every tick > 0 and price",
         "level_note": COMMON_NOTE + "; the float grid effect (0.3 % 0.1) is outside the claim, as the property itself states",
         "tasks": ["Market._add_order"],
-        "not_decided": ["IEEE-754 representation of the grid"],
+        "bounded": [{"name": "accepted prices over random single-market histories (float and int prices, ticks 1, 0.5, 0.25, 0.125, 2.5; exact rational check for power-of-two ticks)", "replayer": "market_ops",
+                     "bound": "3000 (quick) / 40000 (thorough) seeded histories of <= 40 events", "timeout": 1500}],
+        "not_decided": ["IEEE-754 representation of the grid: bounded stand-in only", "the dynamic type of the submitted price (int vs float): bounded stand-in only"],
     },
 }
 PROPS.update({
